@@ -427,7 +427,7 @@ func handleUIDCopy(deps ServerDeps, conn net.Conn, tag string, parts []string, s
 
 		// Prepare flags for copy - preserve existing flags and add \Recent
 		copyFlags := flags
-		if !strings.Contains(copyFlags, `\Recent`) {
+		if !parseFlagsToSet(copyFlags)[`\Recent`] {
 			if copyFlags == "" {
 				copyFlags = `\Recent`
 			} else {
@@ -546,7 +546,7 @@ func handleUIDExpunge(deps ServerDeps, conn net.Conn, tag string, parts []string
 	query := `
 		SELECT id, uid FROM message_mailbox
 		WHERE mailbox_id = ? AND uid IN (` + strings.Join(placeholders, ",") + `)
-		AND flags LIKE '%\Deleted%'
+		AND instr(' ' || flags || ' ', ' \Deleted ') > 0
 		ORDER BY uid ASC
 	`
 
